@@ -29,7 +29,11 @@ RULE = (
     "sides of the horizon r=M/2 where the 4-metric is degenerate, and a "
     "direction; Non_diagonal: t*A(z) > sqrt(2)) and the "
     "module parameter where the module reads one at call time "
-    "(Schwarzschild M, Conformally_flat eps, Szekeres Amp). ICPertFLRW: "
+    "(Schwarzschild M, Conformally_flat eps, Szekeres Amp, LCDM/EdS "
+    "a_today); a sixth of the cases use lattice positions held in int64 "
+    "arrays; the first position is also passed as plain numbers (where the "
+    "function accepts that, the value must be that of the array call). "
+    "ICPertFLRW: "
     "background (EdS/LCDM), t, a periodic non-cubic grid (N 24/32, dyadic "
     "spacing chosen from drawn k/(aH) in 0.25..2.5 per axis), 1-2 "
     "wavelengths per box, amplitudes. Non-trivial = every drawn position "
